@@ -150,12 +150,12 @@ Theorem C09_order_ops_perm :
 Proof. exact @order_ops_perm. Qed.
 Print Assumptions C09_order_ops_perm.
 
-(* in the order _add, _move, _generate, _divide, _delete whatever their listing order *)
+(* operations of one update are applied in rank order (_add, _move, _generate, the divided mother's own entry, _divide, inner keys, _delete) *)
 Theorem C09_order_ops_sorted :
   forall (D : Type) (ops : list (sop D)) (i j : nat),
          i < j < length (order_ops D ops) ->
-         op_rank D (nth i (order_ops D ops) (OpDelete D 0%N)) <=
-         op_rank D (nth j (order_ops D ops) (OpDelete D 0%N)).
+         op_rank D (mothers D ops) (nth i (order_ops D ops) (OpDelete D 0%N)) <=
+         op_rank D (mothers D ops) (nth j (order_ops D ops) (OpDelete D 0%N)).
 Proof. exact @order_ops_sorted. Qed.
 Print Assumptions C09_order_ops_sorted.
 
@@ -279,13 +279,14 @@ Theorem C09_upd_before_delete :
 Proof. exact @upd_before_delete. Qed.
 Print Assumptions C09_upd_before_delete.
 
-(* ... in any update, plain value updates come after every _add/_move/_generate/_divide and before every _delete *)
+(* no value update comes before _add/_move/_generate, only the divided mother's own entry comes before a _divide, and no _delete comes before a value update *)
 Theorem C09_order_ops_upd_position :
   forall (D : Type) (ops : list (sop D)) (i j : nat),
          i < j < length (order_ops D ops) ->
          (forall (k : key) (v : tree Z),
           nth i (order_ops D ops) (OpDelete D 0%N) = OpUpd D k v ->
           match nth j (order_ops D ops) (OpDelete D 0%N) with
+          | OpDivide _ _ _ _ => In k (mothers D ops)
           | OpDelete _ _ | OpDeletePath _ _ | OpUpd _ _ _ => True
           | _ => False
           end) /\
@@ -319,6 +320,51 @@ Theorem C09_upd_missing_skipped :
          cget t (here ++ [k]) = None -> t' = t /\ uid' = uid /\ rp = upd_report.
 Proof. exact @upd_missing_skipped. Qed.
 Print Assumptions C09_upd_missing_skipped.
+
+(* the entry an update holds for the mother it divides is applied before the division (fix c4841c0) *)
+Theorem C09_order_ops_mother_before_divide :
+  forall (D : Type) (ops : list (sop D)) (i j : nat) (m : key) (v : tree Z)
+           (ds : list (key * option D * tree Z)) (ch : list bool),
+         i < length (order_ops D ops) ->
+         j < length (order_ops D ops) ->
+         nth i (order_ops D ops) (OpDelete D 0%N) = OpUpd D m v ->
+         nth j (order_ops D ops) (OpDelete D 0%N) = OpDivide D m ds ch -> i < j.
+Proof. exact @order_ops_mother_before_divide. Qed.
+Print Assumptions C09_order_ops_mother_before_divide.
+
+(* every other value update comes after the _divide *)
+Theorem C09_order_ops_other_upd_after_divide :
+  forall (D : Type) (ops : list (sop D)) (i j : nat) (k : key) (v : tree Z) 
+           (m : key) (ds : list (key * option D * tree Z)) (ch : list bool),
+         i < length (order_ops D ops) ->
+         j < length (order_ops D ops) ->
+         nth i (order_ops D ops) (OpDelete D 0%N) = OpUpd D k v ->
+         ~ In k (mothers D ops) ->
+         nth j (order_ops D ops) (OpDelete D 0%N) = OpDivide D m ds ch -> j < i.
+Proof. exact @order_ops_other_upd_after_divide. Qed.
+Print Assumptions C09_order_ops_other_upd_after_divide.
+
+(* record of the pinned order: the mother's entry came after her division (and was dropped) *)
+Theorem C09_order_ops_pinned_mother_after_divide :
+  forall (D : Type) (ops : list (sop D)) (i j : nat) (m : key) (v : tree Z)
+           (ds : list (key * option D * tree Z)) (ch : list bool),
+         i < length (order_ops_pinned D ops) ->
+         j < length (order_ops_pinned D ops) ->
+         nth i (order_ops_pinned D ops) (OpDelete D 0%N) = OpUpd D m v ->
+         nth j (order_ops_pinned D ops) (OpDelete D 0%N) = OpDivide D m ds ch -> j < i.
+Proof. exact @order_ops_pinned_mother_after_divide. Qed.
+Print Assumptions C09_order_ops_pinned_mother_after_divide.
+
+(* the pinned order and the current order differ on [upd m; divide m] *)
+Theorem C09_order_ops_pinned_refuted :
+  forall (D : Type) (m : key) (v : tree Z) (ds : list (key * option D * tree Z))
+           (ch : list bool),
+         order_ops_pinned D [OpUpd D m v; OpDivide D m ds ch] = [OpDivide D m ds ch; OpUpd D m v] /\
+         order_ops_pinned D [OpDivide D m ds ch; OpUpd D m v] = [OpDivide D m ds ch; OpUpd D m v] /\
+         order_ops D [OpUpd D m v; OpDivide D m ds ch] = [OpUpd D m v; OpDivide D m ds ch] /\
+         order_ops D [OpDivide D m ds ch; OpUpd D m v] = [OpUpd D m v; OpDivide D m ds ch].
+Proof. exact @order_ops_pinned_refuted. Qed.
+Print Assumptions C09_order_ops_pinned_refuted.
 
 
 (* ---- non-vacuity on the concrete kit (Model/StructC.v) ---- *)
